@@ -393,7 +393,7 @@ class Framer(tasking.Tasker):
            use store.stamp for current time reference
         """
         try:
-            self.elapsed = self.store.stamp - self.stamp
+            self.elapsed = round(self.store.stamp - self.stamp, 9)  # nanoseconds
         except TypeError: #one or both stamps are not numbers
             self.stamp = self.store.stamp #makes self.stamp a number once store.stamp is
             self.elapsed = 0.0 #elapsed zero until both numbers
